@@ -5,6 +5,7 @@ go 1.21
 require (
 	github.com/0chain/common v0.0.0
 	github.com/linxGnu/grocksdb v1.8.0
+	github.com/anishathalye/porcupine v1.3.0
 	github.com/shopspring/decimal v1.3.1
 	go.uber.org/zap v1.21.0
 	golang.org/x/crypto v0.7.0
